@@ -1,7 +1,9 @@
-// Allocator layer (alloc.rs): one step from an arbitrary well-formed FAT
-// state (concrete shape = which cells are FREE; links symbolic).
+// Allocator layer (alloc.rs): one step from a well-formed FAT state.
+// Shapes (which cells are FREE, how chains are linked) are concrete per
+// harness instance; sector contents of free sectors, and in the *_sym
+// instances the links, are solver variables.
 // Serves C02 (write-through), C03 (FAT well-formedness), C08 (fresh sectors
-// are zero), C15 (free sectors are reused), C07 (frame).
+// are zero), C15 (free sectors are reused), C07 (frame), C05/C11 (next()).
 use super::env::*;
 use super::util::*;
 use crate::internal::alloc::vacc as aacc;
@@ -11,194 +13,177 @@ pub const NS: usize = 4; // sectors in the pre-state (sector 0 = FAT sector)
 pub const NA: usize = SEC * (1 + NS + 1); // room for one appended sector
 pub type FA = ArrFile<NA>;
 
-pub struct Pre {
-    pub fat: [u32; NS],
-    pub nfree: usize,
-}
-
-/// Arbitrary well-formed allocator state over NS sectors.
-pub fn mk_alloc(freemask: u32) -> (Allocator<FA>, Pre) {
-    let mut data: [u8; NA] = kani::any();
-    let mut fat: Vec<u32> = Vec::with_capacity(NS + 2);
-    let mut free: Vec<u32> = Vec::with_capacity(NS + 2);
-    let mut pre = Pre { fat: [FREE; NS], nfree: 0 };
-    fat.push(FATSECT);
-    pre.fat[0] = FATSECT;
-    let mut i = 1;
-    while i < NS {
-        if (freemask >> i) & 1 == 1 {
-            fat.push(FREE);
-            free.push(i as u32);
-            pre.nfree += 1;
-        } else {
-            let v: u32 = kani::any();
-            kani::assume(v == EOC || (v >= 1 && (v as usize) < NS && v as usize != i));
-            if v != EOC {
-                // may not point at a free cell (shape is concrete)
-                kani::assume((freemask >> v) & 1 == 0);
-            }
-            fat.push(v);
-            pre.fat[i] = v;
-        }
-        i += 1;
-    }
-    // injective on regular values
-    let mut a = 1;
-    while a < NS {
-        let mut b = a + 1;
-        while b < NS {
-            kani::assume(pre.fat[a] > MAXREG || pre.fat[a] != pre.fat[b]);
-            b += 1;
-        }
-        a += 1;
-    }
-    // image: FAT sector = sector 0, cells beyond NS are FREE, header fields
+/// Image + allocator for the FAT `fat` (cell 0 must be FATSECT).  Sectors
+/// whose bit is set in `symmask` get arbitrary (symbolic) contents.
+pub fn image_for(fat: &[u32; NS], symmask: u32) -> [u8; NA] {
+    let mut data = [0u8; NA];
     let mut c = 0;
     while c < SEC / 4 {
-        let v = if c < NS { pre.fat[c] } else { FREE };
+        let v = if c < NS { fat[c] } else { FREE };
         put32(&mut data, soff(0) + 4 * c, v);
         c += 1;
+    }
+    let mut s = 1;
+    while s < NS {
+        if (symmask >> s) & 1 == 1 {
+            let fill: [u8; SEC] = kani::any();
+            data[soff(s as u32)..soff(s as u32) + SEC].copy_from_slice(&fill);
+        }
+        s += 1;
     }
     put32(&mut data, 44, 1); // number of FAT sectors
     put32(&mut data, 76, 0); // DIFAT[0] = sector 0
     put32(&mut data, 80, FREE);
+    data
+}
+
+pub fn mk_alloc_from(fat: &[u32; NS], symmask: u32) -> Allocator<FA> {
+    let data = image_for(fat, symmask);
+    let mut fv: Vec<u32> = Vec::with_capacity(NS + 2);
+    let mut free: Vec<u32> = Vec::with_capacity(NS + 2);
+    let mut i = 0;
+    while i < NS {
+        fv.push(fat[i]);
+        if fat[i] == FREE {
+            free.push(i as u32);
+        }
+        i += 1;
+    }
     let len = SEC * (1 + NS);
     let file = ArrFile::new(data, len);
     let sectors = Sectors::new(Version::V3, len as u64, file);
-    (aacc::mk(sectors, Vec::new(), vec![0u32], fat, free), pre)
-}
-
-fn file(a: &Allocator<FA>) -> &FA {
-    a.inner()
+    aacc::mk(sectors, Vec::new(), vec![0u32], fv, free)
 }
 
 /// Independent well-formedness + coherence check of the FAT after a step.
 pub fn check_fat(a: &Allocator<FA>) {
     let fat = aacc::fat(a);
     let n = fat.len();
-    let f = file(a);
+    let f = a.inner();
     assert!(n <= NS + 1, "C03: FAT cache longer than expected");
     assert!(f.len == SEC * (1 + n), "C03: file length is not header + one sector per FAT entry");
-    assert!(f.len % SEC == 0, "C03: file length not a whole number of sectors");
     assert!(get32(&f.data, 44) == aacc::difat(a).len() as u32, "C02/C03: header FAT sector count differs from DIFAT length");
     assert!(fat[0] == FATSECT, "C03: FAT sector not marked in FAT");
-    // C02: every cached cell equals the image cell (one symbolic index)
-    let j = any_usize_below(SEC / 4);
-    let img = get32(&f.data, soff(0) + 4 * j);
-    if j < n {
-        assert!(img == fat[j], "C02: FAT cache cell differs from image cell");
-    } else {
-        assert!(img == FREE, "C03: FAT cell beyond the last sector is not FREE");
-    }
-    // C03: regular values in range, injective, never the FAT sector
-    let x = any_usize_below(n);
-    let y = any_usize_below(n);
-    if fat[x] <= MAXREG {
-        assert!((fat[x] as usize) < n, "C03: FAT cell points outside the file");
-        assert!(fat[fat[x] as usize] != FREE, "C03: chain runs into a FREE sector");
-        assert!(fat[fat[x] as usize] != FATSECT, "C03: chain runs into a FAT sector");
-        assert!(x == y || fat[x] != fat[y], "C03: sector pointed to twice");
-    }
-    // free list == FREE cells
-    let fl = aacc::free_sectors(a);
-    let mut k = 0;
-    let mut listed = false;
-    while k < fl.len() {
-        assert!((fl[k] as usize) < n && fat[fl[k] as usize] == FREE, "C15/C03: free list names a sector that is not FREE");
-        if fl[k] as usize == x {
-            listed = true;
+    let mut j = 0;
+    while j < SEC / 4 {
+        let img = get32(&f.data, soff(0) + 4 * j);
+        if j < n {
+            assert!(img == fat[j], "C02: FAT cache cell differs from image cell");
+        } else {
+            assert!(img == FREE, "C03: FAT cell beyond the last sector is not FREE");
         }
-        k += 1;
+        j += 1;
     }
-    assert!(fat[x] != FREE || listed, "C15: FREE sector missing from the free list (space would not be reused)");
+    let mut x = 0;
+    while x < n {
+        if fat[x] <= MAXREG {
+            assert!((fat[x] as usize) < n, "C03: FAT cell points outside the file");
+            assert!(fat[fat[x] as usize] != FREE, "C03: chain runs into a FREE sector");
+            assert!(fat[fat[x] as usize] != FATSECT, "C03: chain runs into a FAT sector");
+            let mut y = 0;
+            while y < n {
+                assert!(x == y || fat[x] != fat[y], "C03: sector pointed to twice");
+                y += 1;
+            }
+        }
+        // free list == FREE cells, no duplicates
+        let fl = aacc::free_sectors(a);
+        let mut k = 0;
+        let mut listed = 0;
+        while k < fl.len() {
+            assert!((fl[k] as usize) < n && fat[fl[k] as usize] == FREE, "C15/C03: free list names a sector that is not FREE");
+            if fl[k] as usize == x {
+                listed += 1;
+            }
+            k += 1;
+        }
+        assert!(fat[x] != FREE || listed == 1, "C15: FREE sector not exactly once in the free list (space would leak or be handed out twice)");
+        x += 1;
+    }
 }
 
-fn reach_end(pre: &Pre, start: u32) -> (bool, u32, u32) {
-    // (reaches EOC within NS steps, last sector, length)
+fn chain_of(fat: &[u32; NS], start: u32) -> ([u32; NS], usize) {
+    let mut out = [EOC; NS];
+    let mut n = 0;
     let mut cur = start;
-    let mut last = start;
-    let mut n = 0u32;
-    let mut i = 0;
-    while i < NS {
-        if cur == EOC {
-            return (true, last, n);
-        }
-        last = cur;
-        cur = pre.fat[cur as usize];
+    while cur != EOC && n < NS {
+        out[n] = cur;
         n += 1;
-        i += 1;
+        cur = fat[cur as usize];
     }
-    (cur == EOC, last, n)
+    (out, n)
 }
 
-fn any_init() -> SectorInit {
-    let k: u8 = kani::any();
-    match k % 2 {
-        0 => SectorInit::Zero,
-        _ => SectorInit::Zero,
-    }
-}
-
+// ---------------------------------------------------------------- begin_chain
 macro_rules! alloc_begin {
-    ($name:ident, $mask:expr) => {
+    ($name:ident, $fat:expr, $sym:expr) => {
         #[kani::proof]
         #[kani::stub(std::fmt::format, stub_format)]
-        #[kani::unwind(514)]
+        #[kani::stub(std::io::copy, stub_io_copy)]
+        #[kani::unwind(130)]
         fn $name() {
-            let (mut a, pre) = mk_alloc($mask);
+            let pre: [u32; NS] = $fat;
+            let mut a = mk_alloc_from(&pre, $sym);
+            let nfree = aacc::free_sectors(&a).len();
             let r = a.begin_chain(SectorInit::Zero);
             assert!(r.is_ok(), "C01/C03: allocation failed on a well-formed state");
             let id = r.unwrap();
             let fat = aacc::fat(&a);
             assert!((id as usize) < fat.len() && id != 0, "C03: allocated id out of range");
             assert!(fat[id as usize] == EOC, "C03: fresh chain not terminated");
-            if pre.nfree > 0 {
-                assert!((id as usize) < NS && pre.fat[id as usize] == FREE, "C15: free sector not reused");
+            if nfree > 0 {
+                assert!((id as usize) < NS && pre[id as usize] == FREE, "C15: free sector not reused");
                 assert!(fat.len() == NS, "C15: file grew although a free sector existed");
             } else {
                 assert!(id as usize == NS && fat.len() == NS + 1, "C03: new sector not appended at the end");
             }
-            // C08: the fresh sector is zero (symbolic byte)
             let b = any_usize_below(SEC);
             assert!(a.inner().data[soff(id) + b] == 0, "C08: freshly allocated sector is not zeroed");
-            // frame: other cells unchanged
-            let j = any_usize_below(NS);
-            assert!(j == id as usize || fat[j] == pre.fat[j], "C07/C03: unrelated FAT cell changed");
+            let mut j = 0;
+            while j < NS {
+                assert!(j == id as usize || fat[j] == pre[j], "C07/C03: unrelated FAT cell changed");
+                j += 1;
+            }
             check_fat(&a);
-            kani::cover!(pre.nfree > 0, "reuse path");
-            kani::cover!(pre.nfree == 0, "append path");
+            kani::cover!(true, "reached end");
             std::mem::forget(a);
         }
     };
 }
-alloc_begin!(alloc_begin_nofree, 0b0000);
-alloc_begin!(alloc_begin_free2, 0b0100);
-alloc_begin!(alloc_begin_free13, 0b1010);
+alloc_begin!(alloc_begin_nofree, [FATSECT, EOC, 3, EOC], 0);
+alloc_begin!(alloc_begin_free2, [FATSECT, 3, FREE, EOC], 0b0100);
+alloc_begin!(alloc_begin_free13, [FATSECT, FREE, EOC, FREE], 0b1010);
 
+// --------------------------------------------------------------- extend_chain
 macro_rules! alloc_extend {
-    ($name:ident, $mask:expr) => {
+    ($name:ident, $fat:expr, $sym:expr, $start:expr) => {
         #[kani::proof]
         #[kani::stub(std::fmt::format, stub_format)]
-        #[kani::unwind(514)]
+        #[kani::stub(std::io::copy, stub_io_copy)]
+        #[kani::unwind(130)]
         fn $name() {
-            let (mut a, pre) = mk_alloc($mask);
-            let start = any_below(NS as u32);
-            kani::assume(start >= 1 && pre.fat[start as usize] != FREE);
-            let (ok, last, _n) = reach_end(&pre, start);
-            kani::assume(ok);
+            let pre: [u32; NS] = $fat;
+            let mut a = mk_alloc_from(&pre, $sym);
+            let nfree = aacc::free_sectors(&a).len();
+            let start: u32 = $start;
+            let (ch, n) = chain_of(&pre, start);
+            let last = ch[n - 1];
             let r = a.extend_chain(start, SectorInit::Zero);
             assert!(r.is_ok(), "C01/C03: extend failed on a well-formed state");
             let id = r.unwrap();
             let fat = aacc::fat(&a);
             assert!(fat[last as usize] == id, "C03: old chain end does not link to the new sector");
             assert!(fat[id as usize] == EOC, "C03: extended chain not terminated");
-            if pre.nfree > 0 {
-                assert!(fat.len() == NS && pre.fat[id as usize] == FREE, "C15: free sector not reused");
+            if nfree > 0 {
+                assert!(fat.len() == NS && pre[id as usize] == FREE, "C15: free sector not reused");
             } else {
                 assert!(id as usize == NS, "C03: new sector not appended at the end");
             }
-            let j = any_usize_below(NS);
-            assert!(j == id as usize || j == last as usize || fat[j] == pre.fat[j], "C07/C03: unrelated FAT cell changed");
+            let mut j = 0;
+            while j < NS {
+                assert!(j == id as usize || j == last as usize || fat[j] == pre[j], "C07/C03: unrelated FAT cell changed");
+                j += 1;
+            }
             let b = any_usize_below(SEC);
             assert!(a.inner().data[soff(id) + b] == 0, "C08: freshly allocated sector is not zeroed");
             check_fat(&a);
@@ -207,52 +192,85 @@ macro_rules! alloc_extend {
         }
     };
 }
-alloc_extend!(alloc_extend_nofree, 0b0000);
-alloc_extend!(alloc_extend_free3, 0b1000);
+alloc_extend!(alloc_extend_nofree, [FATSECT, 3, EOC, 2], 0, 1);
+alloc_extend!(alloc_extend_free3, [FATSECT, 2, EOC, FREE], 0b1000, 1);
 
+// ------------------------------------------------- free_chain / free_chain_after
 macro_rules! alloc_free {
-    ($name:ident, $mask:expr) => {
+    ($name:ident, $fat:expr, $start:expr, $after:expr) => {
         #[kani::proof]
         #[kani::stub(std::fmt::format, stub_format)]
         #[kani::unwind(130)]
         fn $name() {
-            let (mut a, pre) = mk_alloc($mask);
-            let start = any_below(NS as u32);
-            kani::assume(start >= 1 && pre.fat[start as usize] != FREE);
-            let (ok, _last, n) = reach_end(&pre, start);
-            kani::assume(ok);
-            let after: bool = kani::any();
+            let pre: [u32; NS] = $fat;
+            let mut a = mk_alloc_from(&pre, 0b1110);
+            let nfree = aacc::free_sectors(&a).len();
+            let start: u32 = $start;
+            let after: bool = $after;
+            let (ch, n) = chain_of(&pre, start);
             let before: [u8; NA] = a.inner().data;
             let r = if after { a.free_chain_after(start) } else { a.free_chain(start) };
             assert!(r.is_ok(), "C01/C03: free failed on a well-formed state");
             let fat = aacc::fat(&a);
             assert!(fat.len() == NS, "C03: FAT length changed by free");
-            // every sector of the walked chain is FREE now (except `start` when after)
-            let mut cur = start;
             let mut i = 0;
-            while i < NS {
-                if cur == EOC {
-                    break;
-                }
-                if after && cur == start {
-                    assert!(fat[cur as usize] == EOC, "C03: truncated chain not terminated");
+            while i < n {
+                if after && i == 0 {
+                    assert!(fat[ch[i] as usize] == EOC, "C03: truncated chain not terminated");
                 } else {
-                    assert!(fat[cur as usize] == FREE, "C15/C03: sector of a freed chain is not FREE");
+                    assert!(fat[ch[i] as usize] == FREE, "C15/C03: sector of a freed chain is not FREE");
                 }
-                cur = pre.fat[cur as usize];
                 i += 1;
             }
-            let nfree_now = aacc::free_sectors(&a).len();
-            let expect = pre.nfree + n as usize - if after { 1 } else { 0 };
-            assert!(nfree_now == expect, "C15: free list does not contain exactly the freed sectors");
-            // data sectors are not touched by freeing (only the FAT sector is written)
+            let expect = nfree + n - if after { 1 } else { 0 };
+            assert!(aacc::free_sectors(&a).len() == expect, "C15: free list does not contain exactly the freed sectors");
+            let mut j = 0;
+            while j < NS {
+                let mut inch = false;
+                let mut k = 0;
+                while k < n { if ch[k] as usize == j { inch = true; } k += 1; }
+                assert!(inch || fat[j] == pre[j], "C07/C03: unrelated FAT cell changed");
+                j += 1;
+            }
+            // freeing writes only into the FAT sector (other streams' bytes untouched)
             let b = any_usize_below(NA);
-            assert!(b < soff(0) + SEC || a.inner().data[b] == before[b], "C07: freeing wrote outside the FAT sector");
+            assert!((b >= soff(0) && b < soff(0) + SEC) || a.inner().data[b] == before[b], "C07: freeing wrote outside the FAT sector");
             check_fat(&a);
             kani::cover!(n >= 2, "chain of two or more sectors");
             std::mem::forget(a);
         }
     };
 }
-alloc_free!(alloc_free_nofree, 0b0000);
-alloc_free!(alloc_free_free1, 0b0010);
+alloc_free!(alloc_free_chain3, [FATSECT, 3, EOC, 2], 1, false);
+alloc_free!(alloc_free_after3, [FATSECT, 3, EOC, 2], 1, true);
+alloc_free!(alloc_free_other, [FATSECT, EOC, 3, EOC], 2, false);
+
+// ------------------------------------------------------------------ next()
+// C05/C11: following any sector id through any FAT never panics.
+#[kani::proof]
+#[kani::stub(std::fmt::format, stub_format)]
+#[kani::unwind(130)]
+fn alloc_next_total() {
+    let mut pre = [FATSECT, 0, 0, 0];
+    pre[1] = kani::any();
+    pre[2] = kani::any();
+    pre[3] = kani::any();
+    let a = mk_alloc_from(&pre, 0);
+    let id: u32 = kani::any();
+    let r = a.next(id);
+    let was_ok = r.is_ok();
+    match r {
+        Ok(v) => {
+            assert!((id as usize) < NS, "C05: next() accepted an id outside the FAT");
+            assert!(v == EOC || (v as usize) < NS, "C05: next() returned an id outside the FAT");
+            assert!(v == pre[id as usize], "C04: next() does not follow the FAT");
+        }
+        Err(e) => {
+            assert!(e.kind() == std::io::ErrorKind::InvalidData, "C05: wrong error kind");
+            assert!((id as usize) >= NS || (pre[id as usize] != EOC && pre[id as usize] as usize >= NS), "C04: next() refused a valid link");
+        }
+    }
+    kani::cover!(id as usize == NS, "id == fat.len()");
+    kani::cover!(was_ok, "ok");
+    std::mem::forget(a);
+}
